@@ -34,11 +34,13 @@ package util
 //@   property C03
 //@   loop 1 (range candidates)
 //@     invariant distinct(peers) && !isnil(peers) && sub(elems(peers), seen1) && sub(elems(peers), dom(candidates))
-//@     invariant forall p peer.ID :: in(p, elems(peers)) ==> in(p, dom(vMap)) && candidates[p].Valid && parseOK(candidates[p].Value) && vMap[p] == parsed(candidates[p].Value)
+//@     invariant forall p peer.ID :: in(p, elems(peers)) ==> in(p, dom(vMap)) && candidates[p].Valid && parseOK(candidates[p].Value) && vMap[p] == parsed(candidates[p].Value) && !expiredAt(candidates[p], old(now))
 //@     invariant forall p peer.ID :: in(p, seen1) && candidates[p].Valid && parseOK(candidates[p].Value) && !expiredAt(candidates[p], now) ==> in(p, elems(peers))
 //@   ensures [lemma-sub] forall k int :: 0 <= k && k < len(res) ==> in(res[k], dom(candidates))
 //@   ensures [distinct] distinct(res) && sub(elems(res), dom(candidates))
 //@   ensures [only-valid-numeric] forall p peer.ID :: in(p, elems(res)) ==> candidates[p].Valid && parseOK(candidates[p].Value)
+// "only peers that currently have a valid unexpired metric": not expired when the call was made (the clock only moves forward)
+//@   ensures [only-unexpired] forall p peer.ID :: in(p, elems(res)) ==> !expiredAt(candidates[p], old(now))
 //@   ensures [all-fresh-included] forall p peer.ID :: in(p, dom(candidates)) && candidates[p].Valid && parseOK(candidates[p].Value) && !expiredAt(candidates[p], now) ==> in(p, elems(res))
 //@   ensures [lemma-vals] forall k int :: 0 <= k && k < len(res) ==> in(res[k], elems(peers))
 //@   ensures [lemma-vals2] forall k int :: 0 <= k && k < len(res) ==> vMap[res[k]] == parsed(candidates[res[k]].Value)
